@@ -327,7 +327,27 @@ func F8(o Opts, emit func(string, *ex.E) bool) bool {
 	}
 	tc := ex.Call("add", ex.Num("1"), ex.Num("2"))
 	tc.TC = true
-	return emit("F8-call", tc)
+	if !emit("F8-call", tc) {
+		return false
+	}
+	// the same call evaluated once per element of an enclosing construct
+	x := ex.Var("x")
+	lists := ex.Tuple(ex.Var("ls"), ex.Tuple(ex.Str("p"), ex.Str("q")), ex.Var("le"), ex.Tuple(ex.Str("r")))
+	per := []*ex.E{
+		ex.ForT("", "x", lists, ex.CallX("cat", x), nil),
+		ex.ForT("", "x", lists, ex.CallX("cat", ex.Str("0"), x), nil),
+		ex.ForT("", "x", ex.Tuple(ex.Var("ln"), ex.Tuple(ex.Num("5"), ex.Num("6"))), ex.CallX("add", x), nil),
+		ex.ForO("k", "x", lists, ex.Var("k"), ex.CallX("cat", x), nil, false),
+		ex.Tmpl("q", ex.Part{K: "for", E: lists, ValVar: "x", Then: []ex.Part{ex.Interp(ex.CallX("cat", x)), ex.Lit(";")}, Strip: [][2]bool{{}, {}}}),
+		ex.Tuple(ex.CallX("cat", ex.Var("ls")), ex.CallX("cat", ex.Var("ls"))),
+		ex.Splat(lists, true, ex.SIdx(ex.Num("0"))),
+	}
+	for _, e := range per {
+		if !emit("F8-call", e) {
+			return false
+		}
+	}
+	return true
 }
 
 // F9: tuple and object constructors.
